@@ -4,28 +4,3 @@ NOTES = ("Machine-checked proof in Lean 4 (see DESIGN.md). Every check regenerat
          "model from the implementation's own pre-state and evaluates the property predicates on the implementation's transition. "
          "Genuine defects found and repaired by 'fix:' commits are listed in known_findings.json.")
 
-COMMON_NOTE = ("Trusted: Lean 4.33.0 kernel; axioms propext, Classical.choice, Quot.sound (Mathlib tactics); the Go harness and the "
-               "Lean driver (they print what the real code / the model did); cosmos-sdk bank/auth and baseapp branching are modelled "
-               "(Bank.applyAll, deliver) and validated on every operation of the run, not verified. ")
-
-TEXT = {
-    "C01": dict(
-        text=("Proved for the model, for all reserve sizes, fees in [0,1), amounts and operation sequences: k_step (every successful swap of either "
-              "kind and direction, addition, removal, bank transfer incl. donations, parameter change leaves X*Y/L^2 of every pool no smaller), "
-              "k_history (lift to every sequence of accepted or rejected operations by induction, with the well-formedness invariant wf_step), "
-              "remove_le_prorata, add_then_remove_le, roundtrip_le, on the code's exact integer formulas (256-bit guards included). "
-              "The model is tied to the code by the step-wise correspondence (4000 ops quick, 8x40000 thorough on the real message server) and the "
-              "regenerated formulas."),
-        note=COMMON_NOTE + "Assumptions stated as hypotheses: EnvOK (pool-address hash has no collisions among the pool-token denominations "
-             "in play and never equals the module / fee-collector account), signers are not escrow addresses."),
-    "C08": dict(
-        text=("Model and correspondence of the coinswap message server incl. responses; the property predicates (deadline, user bounds, "
-              "within-one-unit rounding in the pool's favour, response = ledger delta) are evaluated on every implementation transition; "
-              "theorems for them are being added (this entry currently claims the inversion lemmas + correspondence)."),
-        note=COMMON_NOTE),
-    "C09": dict(
-        text=("Model and correspondence of the coinswap message server; predicates whitelist / per-swap cap / pool cap / no module recipient "
-              "evaluated on every implementation transition; theorems being added."),
-        note=COMMON_NOTE),
-}
-NOT_YET = {}
